@@ -79,6 +79,10 @@ class Prop(core.Prop):
         # header flag variants and sub-hourly (20-minute) time blocks
         for flags in ((0, 1), (1, 0), (0, 0)):
             yield dict(group, layers='2+3', start=[1, 1, 1], tables='complete', flags=list(flags))
+        if group['nt'] >= 2:
+            for lp in ('1', '2+3'):
+                yield dict(group, layers=lp, start=[1, 1, 1], tables='complete', revtime=True)
+                yield dict(group, layers=lp, start=[2, 3, 2], tables='complete', revtime=True, dt=3)
         for lp in ('1', '2+3'):
             yield dict(group, layers=lp, start=[1, 1, 1], tables='complete', dt=3)
             yield dict(group, layers=lp, start=[1, 1, 1], tables='complete', instant=True)
@@ -103,6 +107,9 @@ class Prop(core.Prop):
         if case.get('instant'):
             # instantaneous output: every record is stamped tau1 == tau0
             self.taus = [(a, a) for a, b in self.taus]
+        if case.get('revtime'):
+            # time blocks stored newest first (punch files concatenated in reverse): readers present file order
+            self.taus = self.taus[::-1]
         for t in range(case['nt']):
             blk = []
             for k, (cat, off, num, name, scale, unit, nl) in enumerate(vars_):
@@ -184,7 +191,8 @@ class Prop(core.Prop):
         st = [h64(raw)]
         scope = dict(nt=case['nt'], ncat=case['ncat'], ntr=case['ntr'], layers=case['layers'],
                      nested=bool(case['start'] != [1, 1, 1]), tables=case['tables'],
-                     subhourly=bool(case.get('dt', 1) != 1), flags='%d%d' % tuple(case.get('flags', [1, 1])))
+                     subhourly=bool(case.get('dt', 1) != 1), flags='%d%d' % tuple(case.get('flags', [1, 1])),
+                     revtime=bool(case.get('revtime')))
         vs = []
         ntrans = 0
 
